@@ -5,6 +5,7 @@ import (
 
 	"fmt"
 	"math"
+	"reflect"
 	"strings"
 	"sync/atomic"
 	"unicode"
@@ -510,8 +511,19 @@ func (i *Interpreter) evaluateEq(left, right interface{}) (interface{}, error) {
 		return coercedLeft == coercedRight, nil
 	}
 
+	// Arrays and objects cannot be compared with Go's ==, which panics on
+	// them. They are never equal to anything, as in compiled mode.
+	if !comparableValue(left) || !comparableValue(right) {
+		return false, nil
+	}
+
 	// For non-numeric types, compare directly
 	return left == right, nil
+}
+
+// comparableValue reports whether Go's == is defined for v's dynamic type.
+func comparableValue(v interface{}) bool {
+	return v == nil || reflect.TypeOf(v).Comparable()
 }
 
 // evaluateNe handles inequality comparison
